@@ -52,6 +52,10 @@ def _base_configs():
                   calls=[(300.0, 0.01)], iter="euler"))
     c.append(dict(tag="function-constructor", phases=[ph], D=1e-16, se=1e-5, temp=("function", [0, H(300.0)], [1000, 990]), temp_via="constructor",
                   calls=[(300.0, 0.01)], iter="rk4"))
+    # the repository's own Al-Zr set-up on the real pycalphad-backed thermodynamics (behind a pass-through logging wrapper)
+    c.append(dict(tag="real-alzr-iso", real="alzr", temp=("const", 723.15), calls=[(3600.0, 0.01), (3600.0, 0.02)], iter="euler", cap=500))
+    c.append(dict(tag="real-alzr-ramp", real="alzr", temp=("array", [0, 1.0], [723.15, 743.15]), calls=[(3600.0, 0.005)], iter="euler", cap=500))
+    c.append(dict(tag="real-alzr-fault", real="alzr", temp=("const", 723.15), calls=[(1800.0, 0.02)], iter="rk4", faults={"drivingForce": [7, 8]}, cap=200))
     # multicomponent path (scripted ternary backend: curvature-factor growth law)
     c.append(dict(tag="multi-euler-2calls", multi=True, phases=[ph], calls=[(0.6, 0.02), (0.6, 0.02)], iter="euler"))
     c.append(dict(tag="multi-rk4", multi=True, phases=[ph], calls=[(1.0, 0.02)], iter="rk4"))
@@ -75,9 +79,9 @@ def random_configs(rng, n):
         c["tag"] += "-r%d" % i
         c["iter"] = rng.choice(["euler", "euler", "rk4"])
         c["D"] = rng.choice([1e-17, 1e-16, 1e-15])
-        for p in c["phases"]:
+        for p in c.get("phases", []):
             p["gamma"] = rng.choice([0.04, 0.05, 0.07])
-        if not c.get("multi"):
+        if not c.get("multi") and not c.get("real"):
             c["x0"] = c.get("x0", rng.choice([0.01, 0.02, 0.03]))
         c["calls"] = [(s * rng.choice([0.5, 1, 2]), f) for (s, f) in c["calls"]]
         if rng.random() < 0.3:
